@@ -65,21 +65,81 @@ def universe(tier):
     for name in ('closure', 'kw-then-name'):
         g = grammar(rule('s', shapes(idpat)[name]), rule('id', idpat, isname=True), keywords=['if', 'x'])
         items.append({'g': g, 'texts': texts, 'label': f'{name}/directive-on-parse-off', 'ic': 'directive-then-off', 'kws': ['if', 'x']})
+    # a @name rule written with the rule-inheritance syntax: `id < word = () ;` is word's right-hand side followed by (), still a @name rule
+    from ..absgrammar import void
+    for name in ('closure', 'kw-then-name', 'closure-alt'):
+        g = grammar(rule('s', shapes(idpat)[name]), rule('word', idpat), rule('id', seq(idpat, void()), isname=True), keywords=['if', 'x'])
+        src = to_ebnf(grammar(rule('s', shapes(idpat)[name]), rule('word', idpat), keywords=['if', 'x'])).rstrip('\n') + '\n@name\nid < word = () ;\n'
+        items.append({'g': g, 'src': src, 'texts': texts, 'label': f'{name}/based-name-rule', 'ic': 'off', 'kws': ['if', 'x']})
     quoted = grammar(rule('s', seq(star(call('id')), eof())), rule('id', idpat, isname=True), keywords=['if', 'fi'])
     items.append({'g': quoted, 'texts': texts, 'label': 'quoted-keywords', 'ic': 'off', 'kws': ['if', 'fi'], 'quoted': True})
     return items
 
 
+def run_reuse_case(case):
+    """One generated parser object used for a sequence of parses whose ignorecase setting changes from call to call: every answer must be
+    the one a fresh parser object (and the grammar model) gives for that call alone."""
+    import tatsu
+    from ..impl import _Quiet, clear_caches, load_generated, outcome
+    clear_caches()
+    bad = []
+    with _Quiet():
+        model = tatsu.compile(case['ebnf'])
+        cls, _src = load_generated(case['ebnf'])
+    for order in case['orders']:
+        shared = cls()
+        for text, ic in order:
+            kw = {} if ic is None else {'ignorecase': ic}
+            with _Quiet():
+                a = outcome(lambda: shared.parse(text, start='s', **kw))
+                b = outcome(lambda: cls().parse(text, start='s', **kw))
+                m = outcome(lambda: model.parse(text, start='s', **kw))
+            if (a['k'], a.get('v')) != (b['k'], b.get('v')) or (a['k'], a.get('v')) != (m['k'], m.get('v')):
+                bad.append({'order': order, 'text': text, 'ignorecase': ic, 'reused_object': a, 'fresh_object': b, 'model': m})
+                break
+    return bad
+
+
+def reuse_across_settings(ck, tier):
+    from ..common import pmap
+    idpat = pat(list('ifxIF'), 1, True)
+    cases = []
+    for name in ('closure', 'kw-then-name', 'closure-alt', 'name-or-kw'):
+        for kws in (['if'], ['if', 'x']):
+            g = grammar(rule('s', shapes(idpat)[name]), rule('id', idpat, isname=True), keywords=kws)
+            texts = ['if', 'IF', 'x', 'X', 'ix', 'if x', 'IF x', 'fi', 'If']
+            orders = []
+            for t1, t2 in itertools.product(texts[:6], texts):
+                for i1, i2 in ((None, True), (True, None), (True, False), (False, True)):
+                    orders.append([[t1, i1], [t2, i2]])
+            orders += [[[t, ic] for t in texts for ic in (None, True, False, True, None)]]
+            cases.append({'ebnf': to_ebnf(g), 'orders': orders, 'label': f'{name}/{",".join(kws)}'})
+    res = pmap(run_reuse_case, cases, procs=8, chunk=1, recycle=1)
+    n = 0
+    for c, bad in zip(cases, res):
+        n += sum(len(o) for o in c['orders'])
+        ck.count(evaluations=sum(len(o) for o in c['orders']), traces=sum(len(o) for o in c['orders']))
+        for b in bad[:3]:
+            ck.violation({'kind': 'history', 'inputs': {'grammar': c['ebnf'], 'calls_on_one_generated_parser_object': b['order'], 'text': b['text'],
+                                                        'ignorecase': b['ignorecase']},
+                          'expected': {'fresh parser object': b['fresh_object'], 'model': b['model']}, 'observed': b['reused_object'],
+                          'why': 'a @name rule of a generated parser object that was used before, with another ignorecase setting, decides differently from a fresh '
+                                 'object and from the model', 'spec': 'PegSem!Body (IsKeyword under the ignorecase of THIS parse)'},
+                         key='reuse' + c['label'] + str(b['ignorecase']))
+    ck.notes['reused_parser_calls'] = n
+
+
 def run(tier):
     ck = Check('C11', tier)
     items = universe(tier)
+    reuse_across_settings(ck, tier)
     jobs, cases, per = Jobs(), [], {}
     for idx, it in enumerate(items):
         ic = it['ic'] in ('directive', 'setting')
         for act in ('none', 'tag'):
             cfg = make_cfg(chars_of(it['g'], it['texts']), ignorecase=ic, keywords=it['kws'], act=act, actrule='*')
             jobs.add(it['g'], cfg, it['texts'])
-        ebnf = to_ebnf(it['g'], directives={'ignorecase': 'True'} if it['ic'] in ('directive', 'directive-then-off') else None)
+        ebnf = it.get('src') or to_ebnf(it['g'], directives={'ignorecase': 'True'} if it['ic'] in ('directive', 'directive-then-off') else None)
         if it.get('quoted'):
             ebnf = ebnf.replace('@@keyword :: if', "@@keyword :: 'if'").replace('@@keyword :: fi', '@@keyword :: "fi"')
         settings = {'ignorecase': True} if it['ic'] == 'setting' else {'ignorecase': False} if it['ic'] == 'directive-then-off' else {}
